@@ -49,6 +49,8 @@ pub open spec fn is_int(r: XResult<XValue>, x: int) -> bool {
     r matches Ok(Ok(XValue::Int(i))) && i.val() == x
 }
 
+// @@INCLUDE stdx@@
+
 // @@EXTRACTED@@
 
 } // verus!
